@@ -1506,6 +1506,9 @@ func (v *VMValue) ComputedExecute(ctx *Context, detail *BufferSpan) *VMValue {
 	} else {
 		vm.code = cd.code
 		vm.codeIndex = cd.codeIndex
+		// 预编译的代码没有经过 Parse，但部分指令(如默认面数的 d)需要读取源文本，span 的偏移是相对 Expr 的
+		vm.parser = &parser{data: []byte(cd.Expr)}
+		vm.parser.pt.offset = len(vm.parser.data)
 		vm.evaluate()
 	}
 
@@ -1595,6 +1598,9 @@ func (v *VMValue) FuncInvokeRaw(ctx *Context, params []*VMValue, useUpCtxLocal b
 	} else {
 		vm.code = cd.code
 		vm.codeIndex = cd.codeIndex
+		// 预编译的代码没有经过 Parse，但部分指令(如默认面数的 d)需要读取源文本，span 的偏移是相对 Expr 的
+		vm.parser = &parser{data: []byte(cd.Expr)}
+		vm.parser.pt.offset = len(vm.parser.data)
 		vm.evaluate()
 	}
 
